@@ -2,6 +2,8 @@
 
 package parser
 
+import "strings"
+
 // Read-only accessors used by the external verification harness (/verif):
 // they expose the unexported token flags so that complete tokens can be
 // compared with a reference tokenizer. Compiled only with -tags verif.
@@ -22,3 +24,24 @@ func VerifTokenFlags(t Token) (isID, errInString, errInURL bool) {
 
 // VerifErrorKind returns the private kind byte of a ParseError.
 func VerifErrorKind(t ParseError) byte { return t.kind }
+
+// VerifSerializeCompound serializes a parsed rule or declaration with the package's
+// (unexported) rule serializers.
+func VerifSerializeCompound(c Compound) string {
+	var w strings.Builder
+	switch c := c.(type) {
+	case QualifiedRule:
+		c.serializeTo(&w)
+	case AtRule:
+		c.serializeTo(&w)
+	case Declaration:
+		c.serializeTo(&w)
+	case ParseError:
+		c.serializeTo(&w)
+	case Whitespace:
+		c.serializeTo(&w)
+	case Comment:
+		c.serializeTo(&w)
+	}
+	return w.String()
+}
